@@ -2,7 +2,8 @@
 C11 — IOStream reads return exactly the incoming bytes, in order, per request.
 Property theorems over the stream machine of `Model.lean` (all op sequences, every regex engine `R`).
 -/
-import TornadoModel.C11.Lemmas
+import TornadoModel.C11.Contract3
+import TornadoModel.C11.StdR
 namespace TornadoModel.C11
 variable (R : Nat → Bytes → Option Nat)
 
@@ -212,9 +213,129 @@ def arrival_independent_goal : Prop :=
     evBytes (runEvs (run R (init c m) (segs1.map .feed ++ reads)).2) =
     evBytes (runEvs (run R (init c m) (segs2.map .feed ++ reads)).2)
 
-/-- stretch (tie-only): the contract in the `Spec.contractOk` form on the returned bytes themselves -/
-def read_contracts_goal : Prop :=
-  ∀ (R : Nat → Bytes → Option Nat) (s : St) (d : Bytes) (p : Nat), s.rbytes = none → s.rdelim = some d →
-    findReadPos R s = some (some p) → Spec.contractOk R (.until d s.rmax) (.bytes (s.buf.take p)) = true
+/-! ### the contracts in `Spec.contractOk` form, on the returned bytes themselves -/
+
+/-- **read_contracts_until** (was `read_contracts_goal`): the bytes `buf.take p` a delimiter read returns satisfy
+    `Spec.contractOk`: they end with the FIRST occurrence of the delimiter and are not longer than `max_bytes` -/
+theorem read_contracts_until :
+    ∀ (R : Nat → Bytes → Option Nat) (s : St) (d : Bytes) (p : Nat), s.rbytes = none → s.rdelim = some d →
+      findReadPos R s = some (some p) → Spec.contractOk R (.until d s.rmax) (.bytes (s.buf.take p)) = true := by
+  intro R s d p hb hd h
+  obtain ⟨loc, hl, hp, hmx⟩ := read_contracts_delim R s d p hb hd h
+  have hbd := findSub_bound d s.buf loc hl
+  have hlen : (s.buf.take p).length = p := by rw [List.length_take]; omega
+  have hf := findSub_take d s.buf loc p hl (by omega)
+  have hw : Spec.withinMax s.rmax p = true := by
+    cases hm : s.rmax with
+    | none => rfl
+    | some mm => simpa [Spec.withinMax] using hmx mm hm
+  have : p - d.length = loc := by omega
+  simp only [Spec.contractOk, hlen, hf, hw, this]
+  simp; omega
+
+example : Spec.contractOk stdR (.until [13, 10] (some 4)) (.bytes (([97, 13, 10, 98] : Bytes).take 3)) = true := by decide
+
+/-- **read_contracts_result**: in a state satisfying the invariant whose read parameters encode the request `q`
+    (`Match`), the outcome `_finish_read` produces for the position `_find_read_pos` selects meets `Spec.contractOk q`:
+    exact length (`read_bytes`, `read_into`), 1..n bytes (`partial`), ends right behind the first occurrence of the
+    delimiter / at the end of the engine's first match, never more than `max_bytes`.  The only hypothesis on the regex
+    engine is `RLocal` (a match is determined by the bytes up to its end; `stdR_local`). -/
+theorem read_contracts_result (hR : RLocal R) (s : St) (i : Inv s) (q : Spec.Req) (m : Match s q) (p : Nat)
+    (h : findReadPos R s = some (some p)) : Spec.contractOk R q (finRes s p) = true :=
+  contract_of_find R hR s i q m p h
+
+example : RLocal stdR := stdR_local
+example : Match { buf := [97, 49, 50, 120, 98], rregex := some 1, rmax := some 4, rfut := some 0 } (.regex 1 (some 4)) := by
+  simp [Match]
+
+/-- **read_contracts_step**: one step from a good state whose registered requests are `T` (`Cover`: ids below
+    `nextId`, the pending read is in `T`): every data result of the step belongs to a request in `T` or to the one
+    this op registers, and meets that request's contract -/
+theorem read_contracts_step (hR : RLocal R) (s : St) (i : Inv s) (T : List (Nat × Spec.Req)) (c : Cover T s) (op : Op) :
+    Cover (T ++ issued s op) (step R s op).1 ∧
+    ∀ g o, (g, o) ∈ dataEvs (step R s op).2.evs → ∃ q, (g, q) ∈ T ++ issued s op ∧ Spec.contractOk R q o = true :=
+  step_ok R hR s i T c op
+
+/-- **read_contracts_run**: for ALL op sequences from a fresh stream (any arrival pattern, close point, error
+    injection, request order): every result handed to a read future (`dataEvs`: future id, outcome) belongs to a
+    request registered under that id (`table`) and meets `Spec.contractOk` for it; ids identify requests uniquely -/
+theorem read_contracts_run (hR : RLocal R) (c m : Nat) (ops : List Op) :
+    (∀ g o, (g, o) ∈ dataEvs (runEvs (run R (init c m) ops).2) →
+      ∃ q, (g, q) ∈ table R (init c m) ops ∧ Spec.contractOk R q o = true) ∧
+    (∀ g q q', (g, q) ∈ table R (init c m) ops → (g, q') ∈ table R (init c m) ops → q = q') := by
+  have c0 : Cover [] (init c m) :=
+    ⟨by intro x hx; simp at hx, by intro f hf; simp [init] at hf, by intro g q q' h; simp at h⟩
+  have := run_ok R hR ops (init c m) [] (init_inv c m) c0
+  simpa [runEvs] using this
+
+theorem finishInline_ret (s : St) (cu : Bool) (f0 f : Nat) (h : (finishInline R cu s f0).2 = .fut f) : f = f0 := by
+  unfold finishInline at h
+  split at h
+  · simp at h; exact h.symm
+  · split at h
+    · simp at h; exact h.symm
+    · simp at h
+  · simp at h
+
+/-- **issued_of_ret**: the table entry of a read call is keyed by the very future the call returned -/
+theorem issued_of_ret (s : St) (op : Op) (f : Nat) (q : Spec.Req) (hq : reqOfOp op = some q)
+    (h : (step R s op).2.ret = .fut f) : issued s op = [(f, q)] := by
+  have h' : (doStep R { s with out := [] } op).2 = .fut f := h
+  have key : ∀ (s1 : St) (f0 : Nat), startRead { s with out := [] } = .inr (s1, f0) →
+      s.rfut = none ∧ f0 = s.nextId := by
+    intro s1 f0 hs
+    obtain ⟨a, _, b⟩ := startRead_inr _ s1 f0 hs
+    exact ⟨a, b⟩
+  have fin : s.rfut = none → f = s.nextId → issued s op = [(f, q)] := by
+    intro h1 h2; simp [issued, h1, hq, h2]
+  cases op with
+  | readBytes n part =>
+    simp only [doStep] at h'
+    split at h'
+    · simp at h'
+    · rename_i s1 f0 hs
+      obtain ⟨a, b⟩ := key s1 f0 hs
+      exact fin a ((finishInline_ret R _ _ _ _ h').trans b)
+  | readUntil d mx =>
+    simp only [doStep] at h'
+    split at h'
+    · simp at h'
+    · rename_i s1 f0 hs
+      obtain ⟨a, b⟩ := key s1 f0 hs
+      exact fin a ((finishInline_ret R _ _ _ _ h').trans b)
+  | readRegex rid mx =>
+    simp only [doStep] at h'
+    split at h'
+    · simp at h'
+    · rename_i s1 f0 hs
+      obtain ⟨a, b⟩ := key s1 f0 hs
+      exact fin a ((finishInline_ret R _ _ _ _ h').trans b)
+  | readUntilClose =>
+    simp only [doStep] at h'
+    split at h'
+    · simp at h'
+    · rename_i s1 f0 hs
+      obtain ⟨a, b⟩ := key s1 f0 hs
+      split at h'
+      · simp at h'; exact fin a (h'.symm.trans b)
+      · exact fin a ((finishInline_ret R _ _ _ _ h').trans b)
+  | readInto n part =>
+    simp only [doStep, readInto] at h'
+    split at h'
+    · simp at h'
+    · rename_i s1 f0 hs
+      obtain ⟨a, b⟩ := key s1 f0 hs
+      split at h'
+      · simp at h'; exact fin a (h'.symm.trans b)
+      · exact fin a ((finishInline_ret R _ _ _ _ h').trans b)
+  | _ => simp [reqOfOp] at hq
+
+-- non-vacuity: the run of the example above — three requests registered, three results, each under its own id
+example : table stdR (init 4 100) [.readUntil [13, 10] none, .feed [97, 13], .feed [10, 98, 99, 100],
+            .readBytes 2 true, .readInto 3 false, .feed [101, 102]] =
+    [(0, .until [13, 10] none), (1, .bytes 2 true), (2, .into 3 false)] := by decide
+example : dataEvs (runEvs (run stdR (init 4 100) [.readUntil [13, 10] none, .feed [97, 13], .feed [10, 98, 99, 100],
+            .readBytes 2 true, .readInto 3 false, .feed [101, 102]]).2) =
+    [(0, .bytes [97, 13, 10]), (1, .bytes [98, 99]), (2, .into 3 [100, 101, 102])] := by decide
 
 end TornadoModel.C11
